@@ -80,3 +80,14 @@ def value_with_optional_details(value, default_details=None):
         details = default_details
 
     return value, details
+
+
+def as_table_cell(text):
+    """
+    The data file is a table with one record per line and tab-separated cells.
+    A tab, line feed, or carriage return inside a cell would be read back as
+    the end of the cell or of the record. They are written as a space.
+    """
+    if not isinstance(text, str):
+        return text
+    return text.replace("\t", " ").replace("\r", " ").replace("\n", " ")
